@@ -143,6 +143,13 @@ def named_location_program(rng, compress):
     T = pos + dist
     items = [{'k': 'const', 'name': 'TLOC', 'value': T, 'text': rng.choice([str, hex])(T)}]
     items += [{'k': 'pseudo', 'm': 'nop', 'ops': []} for _ in range(n)]
+    if rng.random() < 0.3:
+        # the distance to an absolute address as a value: li of %offset(constant), small and large, next to the 12-bit edges
+        T2 = pos + rng.choice([0, 4, 100, 2046, 2047, 2048, 2052, 4096, 0x5678, 0x7ff, 0x800, 0x12345678, 0x7ffff7fc, 0x1f000, 0x20000])
+        items[0] = {'k': 'const', 'name': 'TLOC', 'value': T2, 'text': rng.choice([str, hex])(T2)}
+        items.append({'k': 'pseudo', 'm': 'li', 'ops': [{'r': rng.choice(REGS[1:])}, rng.choice([{'off': 'TLOC'}, {'off': 'TLOC'}, {'hi': {'off': 'TLOC'}}, {'lo': {'off': 'TLOC'}}])]})
+        items.append({'k': 'pseudo', 'm': 'ret', 'ops': []})
+        return items
     items.append({'k': 'pseudo', 'm': m, 'ops': [{'t': 'TLOC'}]})
     items.append({'k': 'pseudo', 'm': 'ret', 'ops': []})
     return items
